@@ -145,10 +145,10 @@ class Decorator:
             b.fns[fid - 1]['body'] = self.block(b, fid, scope + params)
             self.take('end')
             return b.node(kind='def', fn=fn, name=b.fns[fid - 1]['name'], f=fid)
-        if t == 'call':
+        if t in ('call', 'callnr'):
             # the def token sequence is always followed by a call of the function just defined
             f = max(i for i in range(1, len(b.fns) + 1) if b.fns[i - 1]['parent'] == fn)
-            form = r.choice(['assign', 'assign', 'expr', 'return'])
+            form = r.choice(['assign', 'assign', 'expr'] + (['return'] if t == 'call' else []))
             args = [r.choice(scope) for _ in b.fns[f - 1]['params']]
             return b.node(kind='call', fn=fn, name=b.fns[f - 1]['name'], form=form, args=args,
                           tgt=[r.choice(self.names)] if form == 'assign' else [])
